@@ -36,8 +36,19 @@ type featDef struct {
 }
 
 type shaperOp struct {
-	Kind string `json:"kind"` // shape | cache_size | set_variations | set_coords | set_ppem
+	// shape | cache_size | set_variations | set_coords | set_ppem |
+	// burst_shape: Count Shape calls of the given (tiny) input in one step, alternating between Slot2 and
+	//   Slot and ending with Slot, results not compared (the following steps are) |
+	// burst_cache: Count SetFontCacheSize calls alternating between AltN and N, ending with N |
+	// burst_set: Count setter calls on the face of Slot (see faceOp: Setter, Alt, embedded setting)
+	Kind string `json:"kind"`
 	Slot int    `json:"slot"`
+	// bursts
+	Count  int    `json:"count,omitempty"`
+	Slot2  int    `json:"slot2,omitempty"`
+	AltN   int    `json:"alt_n,omitempty"`
+	Setter string `json:"setter,omitempty"`
+	Alt    *cfgOp `json:"alt,omitempty"`
 	// shape
 	Text     []rune    `json:"text,omitempty"`
 	RunStart int       `json:"run_start,omitempty"`
@@ -77,6 +88,7 @@ type shaperMachine struct {
 	lastSlotOfFont map[string]int    // font key -> slot of its last shape
 	lastCfgOfSlot  map[int]string    // slot -> cfg key at its last shape
 	lastPlanOfSlot map[int]string    // slot -> direction/script/language/features at its last shape
+	lastFeatsOfSlot map[int][]featDef
 	sinceOther     map[string]int    // font key -> number of shapes with other fonts since its last shape
 	flags          map[string]bool   // labels of this history
 	shapes         int
@@ -84,7 +96,7 @@ type shaperMachine struct {
 
 func newShaperMachine(t ev.TB, faces []faceDef) *shaperMachine {
 	m := &shaperMachine{t: t, c: &shaperCase{Faces: faces}, used: &shaping.HarfbuzzShaper{},
-		lastSlotOfFont: map[string]int{}, lastCfgOfSlot: map[int]string{}, lastPlanOfSlot: map[int]string{}, sinceOther: map[string]int{}, flags: map[string]bool{}}
+		lastSlotOfFont: map[string]int{}, lastCfgOfSlot: map[int]string{}, lastPlanOfSlot: map[int]string{}, lastFeatsOfSlot: map[int][]featDef{}, sinceOther: map[string]int{}, flags: map[string]bool{}}
 	for _, fd := range faces {
 		pf := mustFont(t, fd.Font)
 		m.pfs = append(m.pfs, pf)
@@ -135,6 +147,30 @@ func (m *shaperMachine) apply(op shaperOp) {
 		m.size = op.N
 	case "set_variations", "set_coords", "set_ppem":
 		applyCfgOp(op.Kind, op.cfgOp, m.faces[op.Slot], &m.cfgs[op.Slot])
+	case "burst_set":
+		if op.Alt == nil || op.Count < 1 {
+			m.t.Fatalf("infrastructure: incomplete burst in replayed case")
+		}
+		burstSetters(op.Setter, op.Count, op.cfgOp, *op.Alt, m.faces[op.Slot], &m.cfgs[op.Slot])
+		m.flags[burstLabel(op.Count)] = true
+	case "burst_cache":
+		for i := 1; i <= op.Count; i++ {
+			if (op.Count-i)%2 == 0 {
+				m.used.SetFontCacheSize(op.N)
+			} else {
+				m.used.SetFontCacheSize(op.AltN)
+			}
+		}
+		if op.N < m.size {
+			m.flags["cache_shrunk"] = true
+		}
+		m.size = op.N
+		m.flags[burstLabel(op.Count)] = true
+	case "burst_shape":
+		if op.Slot2 < 0 || op.Slot2 >= len(m.faces) || op.Count < 1 {
+			m.t.Fatalf("infrastructure: incomplete burst in replayed case")
+		}
+		m.burstShape(op)
 	default:
 		m.t.Fatalf("infrastructure: unknown op %q", op.Kind)
 	}
@@ -194,6 +230,36 @@ func (m *shaperMachine) shape(op shaperOp) {
 	m.early = append(m.early, earlierOutput{step: len(m.c.Ops) - 1, out: out, cpy: copyOutput(out)})
 }
 
+// burstShape shapes a tiny input Count times in one step. The calls themselves are not compared
+// with fresh objects (that is what makes long histories affordable); the steps that follow are.
+func (m *shaperMachine) burstShape(op shaperOp) {
+	ins := [2]shaping.Input{op.input(m.faces[op.Slot]), op.input(m.faces[op.Slot2])}
+	done := 0
+	p := try(func() {
+		for i := 1; i <= op.Count; i++ {
+			m.used.Shape(ins[(op.Count-i)%2])
+			done = i
+		}
+	})
+	m.flags[burstLabel(op.Count)] = true
+	for _, sl := range []int{op.Slot2, op.Slot} {
+		m.lastSlotOfFont[m.pfs[sl].Ref.key()] = sl
+		m.lastCfgOfSlot[sl] = m.cfgs[sl].key()
+	}
+	if p != nil {
+		// does a fresh shaper panic on this input too? then it is a totality matter
+		which := (op.Count - (done + 1)) % 2
+		sl := [2]int{op.Slot, op.Slot2}[which]
+		if pf := try(func() { (&shaping.HarfbuzzShaper{}).Shape(op.input(freshFace(m.pfs[sl], m.cfgs[sl]))) }); pf != nil {
+			m.flags["both_panic_restart"] = true
+			m.used = &shaping.HarfbuzzShaper{}
+			m.used.SetFontCacheSize(m.size)
+			return
+		}
+		m.fail("call %d of the burst panicked on the used shaper, a fresh shaper does not panic on this input: %v", done+1, p)
+	}
+}
+
 func glyphSummary(o shaping.Output) string {
 	s := "["
 	for i, g := range o.Glyphs {
@@ -232,6 +298,17 @@ func (m *shaperMachine) classify(op shaperOp, pf *poolFont, cfg faceCfg) {
 		}
 	}
 	m.lastPlanOfSlot[op.Slot] = plan
+	if prev, ok := m.lastFeatsOfSlot[op.Slot]; ok && len(prev) == len(op.Features) && len(prev) > 0 {
+		sameTags, otherValue := true, false
+		for i := range prev {
+			sameTags = sameTags && prev[i].Tag == op.Features[i].Tag
+			otherValue = otherValue || prev[i].Value != op.Features[i].Value
+		}
+		if sameTags && otherValue {
+			m.flags["revisit_face_same_feature_tags_other_values"] = true
+		}
+	}
+	m.lastFeatsOfSlot[op.Slot] = op.Features
 	for k := range m.sinceOther {
 		if k != fk {
 			m.sinceOther[k]++
@@ -316,6 +393,9 @@ func drawFaces(t *rapid.T) []faceDef {
 	for i, n := 0, rapid.IntRange(0, 2).Draw(t, "nStatic"); i < n; i++ {
 		add(rapid.SampledFrom(staticPool).Draw(t, "staticFont"), 1)
 	}
+	if rapid.IntRange(0, 3).Draw(t, "alternatesFont") == 0 {
+		add(rapid.SampledFrom(altPool).Draw(t, "altFont"), rapid.IntRange(1, 2).Draw(t, "nAltFaces"))
+	}
 	if rapid.IntRange(0, 3).Draw(t, "secondVar") == 0 {
 		add(rapid.SampledFrom(varPool).Draw(t, "varFont2"), rapid.IntRange(1, 2).Draw(t, "nVarFaces2"))
 	}
@@ -336,7 +416,7 @@ func drawShapeOp(t *rapid.T, m *shaperMachine) shaperOp {
 	op.Lang = rapid.SampledFrom([]string{"", "en", "en", "ar", "tr", "hi", "sr"}).Draw(t, "lang")
 	op.Size = rapid.SampledFrom(shapeSizes).Draw(t, "size")
 	for i, n := 0, rapid.SampledFrom([]int{0, 0, 0, 1, 1, 2}).Draw(t, "nFeatures"); i < n; i++ {
-		op.Features = append(op.Features, featDef{Tag: rapid.SampledFrom(shaperFeatures).Draw(t, "feature"), Value: uint32(rapid.IntRange(0, 1).Draw(t, "featureValue"))})
+		op.Features = append(op.Features, featDef{Tag: drawFeatureTag(t, pf), Value: rapid.SampledFrom(featureValues).Draw(t, "featureValue")})
 	}
 	return op
 }
@@ -374,6 +454,50 @@ func TestPropShaper(t *testing.T) {
 			}
 			m.apply(op)
 		})
+		weighted(actions, "shape_again_other_features", 2, func(rt *rapid.T) {
+			// the latest (or an earlier) Shape call once more with ONLY its feature list changed
+			var earlier []shaperOp
+			for _, o := range m.c.Ops {
+				if o.Kind == "shape" {
+					earlier = append(earlier, o)
+				}
+			}
+			if len(earlier) == 0 {
+				m.apply(drawShapeOp(rt, m))
+				return
+			}
+			op := earlier[len(earlier)-1]
+			if rapid.IntRange(0, 3).Draw(rt, "notLatest") == 0 {
+				op = earlier[rapid.IntRange(0, len(earlier)-1).Draw(rt, "earlier")]
+			}
+			op.Features = mutateFeatDefs(rt, op.Features, m.pfs[op.Slot])
+			m.apply(op)
+		})
+		weighted(actions, "burst", 1, func(rt *rapid.T) {
+			// a Shape, many cheap operations in one step, possibly a settings change, the same Shape again
+			q := drawShapeOp(rt, m)
+			m.apply(q)
+			pf := m.pfs[q.Slot]
+			switch rapid.IntRange(0, 3).Draw(rt, "burstKind") {
+			case 0:
+				tiny := drawShapeOp(rt, m)
+				if len(tiny.Text) > 2 {
+					tiny.Text = tiny.Text[:2]
+				}
+				tiny.RunStart, tiny.RunEnd = 0, len(tiny.Text)
+				tiny.Kind, tiny.Slot2, tiny.Count = "burst_shape", rapid.IntRange(0, len(m.faces)-1).Draw(rt, "slot2"), drawBurstN(rt, false)
+				m.apply(tiny)
+			case 1:
+				m.apply(shaperOp{Kind: "burst_cache", Count: drawBurstN(rt, true), N: rapid.SampledFrom([]int{0, 1, 2, 8}).Draw(rt, "n"), AltN: rapid.SampledFrom([]int{0, 1, 2, 8}).Draw(rt, "altN")})
+			default:
+				setter, last, alt := drawSetterBurst(rt, pf)
+				m.apply(shaperOp{Kind: "burst_set", Slot: q.Slot, Setter: setter, Count: drawBurstN(rt, len(pf.GIDs) < 300), Alt: &alt, cfgOp: last})
+			}
+			if rapid.Bool().Draw(rt, "thenChange") {
+				m.apply(shaperOp{Kind: "set_variations", Slot: q.Slot, cfgOp: cfgOp{Vars: drawVars(rt, pf)}})
+			}
+			m.apply(q)
+		})
 		weighted(actions, "cache_size", 1, func(rt *rapid.T) {
 			m.apply(shaperOp{Kind: "cache_size", N: rapid.SampledFrom([]int{0, 1, 2, 8}).Draw(rt, "n")})
 		})
@@ -393,6 +517,86 @@ func TestPropShaper(t *testing.T) {
 		rt.Repeat(actions)
 		m.finish()
 	})
+}
+
+// mutateFeatDefs changes only the feature list of a call: a value (0, 1, 2, 3), one more or one
+// fewer feature, or their order.
+func mutateFeatDefs(t *rapid.T, in []featDef, pf *poolFont) []featDef {
+	out := append([]featDef(nil), in...)
+	kind := rapid.IntRange(0, 9).Draw(t, "featureMutation")
+	switch {
+	case len(out) == 0 || kind == 0:
+		return append(out, featDef{Tag: drawFeatureTag(t, pf), Value: rapid.SampledFrom(featureValues).Draw(t, "featureValue")})
+	case kind == 1:
+		i := rapid.IntRange(0, len(out)-1).Draw(t, "drop")
+		return append(out[:i], out[i+1:]...)
+	case kind == 2 && len(out) >= 2:
+		out[0], out[len(out)-1] = out[len(out)-1], out[0]
+		return out
+	default:
+		i := rapid.IntRange(0, len(out)-1).Draw(t, "which")
+		out[i].Value = (out[i].Value + uint32(rapid.IntRange(1, 3).Draw(t, "valueShift"))) % 4
+		return out
+	}
+}
+
+// TestEnumShaperWrap walks every burst size deterministically on one shaper: Shape with face 0,
+// a burst (Shape calls alternating between two other faces, SetFontCacheSize toggles, or setter
+// calls on face 0), a variations change of face 0, the same Shape again and a Shape with the
+// sibling face, for cache sizes 1 and 2.
+func TestEnumShaperWrap(t *testing.T) {
+	fonts := []string{fRvrn, fHBTestVF, fSourceSansVF, fEstedad}
+	shard, nshards := ev.Shard()
+	idx := 0
+	for fi, file := range fonts {
+		pf := mustFont(t, fontRef{File: file})
+		a0 := pf.Axes[0]
+		vars := func(v float32) []varSetting { return []varSetting{{Tag: a0.Tag.String(), Value: v}} }
+		text := []rune{pf.Runes[len(pf.Runes)/2]}
+		if file == fRvrn {
+			text = []rune("r")
+		}
+		for _, kind := range []string{"burst_shape", "burst_cache", "burst_set", "burst_set_mixed"} {
+			for _, size := range []int{1, 2} {
+				for _, n := range burstAll() {
+					if n >= 65535 && kind == "burst_shape" && (fi != 0 || size != 2) {
+						continue // 2^16 real shapings: once is affordable
+					}
+					idx++
+					if idx%nshards != shard {
+						continue
+					}
+					faces := []faceDef{{Font: pf.Ref, Cfg: faceCfg{Mode: "variations", Vars: vars(a0.Min)}}, {Font: pf.Ref, Cfg: faceCfg{Mode: "variations", Vars: vars(a0.Max)}}, {Font: pf.Ref}}
+					m := newShaperMachine(t, faces)
+					q := shaperOp{Kind: "shape", Slot: 0, Text: text, RunEnd: len(text), Script: scriptOf(text).String(), Lang: "en", Size: 1000 * 64}
+					m.apply(shaperOp{Kind: "cache_size", N: size})
+					m.apply(q)
+					switch kind {
+					case "burst_shape":
+						b := q
+						b.Kind, b.Slot, b.Slot2, b.Count = "burst_shape", 1, 2, n
+						m.apply(b)
+					case "burst_cache":
+						m.apply(shaperOp{Kind: "burst_cache", Count: n, N: size, AltN: 3 - size})
+					default:
+						setter := "set_variations"
+						if kind == "burst_set_mixed" {
+							setter = "mixed"
+						}
+						m.apply(shaperOp{Kind: "burst_set", Slot: 0, Setter: setter, Count: n, Alt: &cfgOp{Vars: vars(a0.Def), PpemX: 20, PpemY: 20}, cfgOp: cfgOp{Vars: vars(a0.Max), PpemX: 96, PpemY: 96}})
+					}
+					if kind == "burst_shape" || kind == "burst_cache" {
+						m.apply(shaperOp{Kind: "set_variations", Slot: 0, cfgOp: cfgOp{Vars: vars(a0.Def + (a0.Max-a0.Def)/2)}})
+					}
+					m.apply(q)
+					q.Slot = 1
+					m.apply(q)
+					m.finish()
+					ev.Label("shaper:enum_wrap_cases")
+				}
+			}
+		}
+	}
 }
 
 func replayShaper(t *testing.T, raw json.RawMessage) {
